@@ -694,13 +694,12 @@ func (s *Spec) enumPrefix() string {
 // enumShort strips the prefix from a declared option / rule name.
 func (s *Spec) enumShort(name string) string { return strings.TrimPrefix(name, s.enumPrefix()) }
 
-// enumNumbers: short name -> number as the language defines it (declaration order from 1; an
-// explicit leading *UNSPECIFIED option is 0; UNSPECIFIED always exists as 0).
+// enumNumbers: short name -> number as the language defines it (declaration order from 1;
+// UNSPECIFIED always exists as 0, an explicit leading UNSPECIFIED option is that same value).
 func (s *Spec) enumNumbers() map[string]int32 {
 	m := map[string]int32{"UNSPECIFIED": 0}
 	opts := s.EOpts
-	if len(opts) > 0 && strings.HasSuffix(opts[0], "UNSPECIFIED") {
-		m[s.enumShort(opts[0])] = 0
+	if len(opts) > 0 && s.enumShort(opts[0]) == "UNSPECIFIED" {
 		opts = opts[1:]
 	}
 	for i, o := range opts {
